@@ -36,6 +36,7 @@ class Contract:
         self.ghost_entry = kw.pop("ghost_entry", [])   # ghost statements executed at function entry (ghost.* only)
         self.hints = kw.pop("hints", [])
         self.merge_returns = kw.pop("merge_returns", False)
+        self.split_exits = kw.pop("split_exits", False)     # verify the normal exits of the last statement per path
         self.raises_only = kw.pop("raises_only", False)     # the unit is expected never to return normally   # check the postcondition once on the merged exit            # instances of *proved lemmas* assumed at every exit
         if kw:
             raise TypeError("unknown contract keys %r" % list(kw))
@@ -90,7 +91,7 @@ class Registry:
             self.units.append(c)
         return c
 
-    def shape(self, name, cls=None, fields=None, methods=None, base=None, ghost=False, heap_base=None):
+    def shape(self, name, cls=None, fields=None, methods=None, base=None, ghost=False, heap_base=None, isa=()):
         f, m = {}, {}
         if base:
             f.update(self.shapes[base].fields)
@@ -99,6 +100,7 @@ class Registry:
         f.update(fields or {})
         m.update(methods or {})
         self.shapes[name] = Shape(name, cls, f, m, ghost, heap_base)
+        self.shapes[name].isa = tuple(isa)      # builtin classes an instance of a class-less shape belongs to
         return self.shapes[name]
 
     def external(self, name, fn, pure=False):
@@ -457,9 +459,20 @@ def sf_implies(ex, state, e):
     n = len(state.pc)
     state.pc.append(a)
     ex.quant_facts.append(a)
+    from .executor import _Abort, _pc_state
     try:
         b = ex.truthy(state, ex.ev(state, e.args[1]))
         new = state.pc[n + 1:]
+    except _Abort:
+        # the consequent is undefined in every alternative: the clause is well-defined only if the antecedent is false
+        state.pc = state.pc[:n]
+        pcs = _pc_state(state.pc + list(ex.quant_facts[:-1]))
+        if not ex.prove_quick(pcs, z3.Not(a)):
+            sm, ex.spec_mode = ex.spec_mode, 0
+            ex.oblige("spec-defined", pcs, simp(z3.Not(a)),
+                      info={"clause": getattr(ex, "cur_clause", None), "undefined_consequent_of": ast.unparse(e.args[0])})
+            ex.spec_mode = sm
+        return VBool(True)
     except BaseException:
         state.pc = state.pc[:n]
         raise
